@@ -329,3 +329,14 @@ for _qn, _file in (('Scheduler._iterate_jobs', F_S), ('PureScheduler.iterate_job
     c.ensures('every-node-of-the-tree-exactly-once', lambda c: _ycount_delta(
         c, lambda x: _visits(x, c.a.self, c.a.scan_schedulers, True)))
     c.loop(0, inv=[('visited-subtrees-yielded-once', _iter_inv)])
+
+
+# ---------------------------------------------------------------- PureScheduler._middle_index (C20: anchor choice)
+# `for _, job in zip(range(index+1), entries): pass` in _middle_entry_job/_middle_exit_job binds `job` only if
+# index >= 0 (there is at least one entry at that point): that is all C20 needs of this function. Which of the
+# entries is picked ("the middle one") is layout, not part of the property, and deliberately not in the contract:
+# zip() tolerates an index past the end.
+c = contract('PureScheduler._middle_index', F_PS).param('last', 'int').returns('int')
+c.for_props('C20')
+c.requires('at-least-one', lambda c: c.a.last >= 1)
+c.ensures('non-negative', lambda c: c.result >= 0)
